@@ -20,6 +20,8 @@ type cacheFunctions[MetadataT any] struct {
 	getCacheSize  func() int64
 	getCacheLen   func() int
 	getLock       func(key CacheKey) *sync.RWMutex
+	// The metadata currently stored for key, if any (call with the key's lock held).
+	getMetadata func(key CacheKey) (*EntryMetadata[MetadataT], bool)
 }
 
 type cacheJanitor[MetadataT any] struct {
@@ -120,6 +122,13 @@ func (j *cacheJanitor[MetadataT]) cleanExpiredEntries() {
 		locked := lock.TryLock()
 		if !locked {
 			slog.Info("Failed to acquire lock for key", "key", key.Hex)
+			continue
+		}
+
+		// The scan above ran without the entry's lock: look again now that it is held. A fresh
+		// response may have been stored under this key in the meantime and must stay.
+		if meta, ok := j.cacheFns.getMetadata(key); !ok || !meta.Expires.Before(time.Now()) {
+			lock.Unlock()
 			continue
 		}
 
